@@ -6,6 +6,7 @@ package main
 // conversion between Go values and the canonical `goval` S-expression, and the type descriptors.
 
 import (
+	"encoding/json"
 	"fmt"
 	"math"
 	"math/big"
@@ -19,12 +20,20 @@ import (
 
 // ---- types ------------------------------------------------------------------------------------
 
+// Ty is an input type. Input object types point to a shared definition, so recursive types
+// (input In { e: In, c: [In] }) are cyclic Go structures.
 type Ty struct {
-	K      string // scalar | enum | input | list | nn
-	Name   string // scalar / enum / input-object name
-	Vals   []string
+	K    string // scalar | custom | enum | input | list | nn
+	Name string // scalar / custom scalar / enum / input-object name
+	Vals []string
+	Def  *InputDef
+	Elem *Ty
+}
+
+type InputDef struct {
+	Name   string
 	Fields []*Field
-	Elem   *Ty
+	Hooked bool // the type has an InputCoercion hook
 }
 
 type Field struct {
@@ -33,8 +42,10 @@ type Field struct {
 	Dflt *hx.Sexp // goval; nil = no default; atom nil = schema.Null
 }
 
-func scalarTy(n string) *Ty { return &Ty{K: "scalar", Name: n} }
-func listTy(t *Ty) *Ty      { return &Ty{K: "list", Elem: t} }
+func scalarTy(n string) *Ty   { return &Ty{K: "scalar", Name: n} }
+func customTy(n string) *Ty   { return &Ty{K: "custom", Name: n} }
+func listTy(t *Ty) *Ty        { return &Ty{K: "list", Elem: t} }
+func inputTy(d *InputDef) *Ty { return &Ty{K: "input", Name: d.Name, Def: d} }
 func nnTy(t *Ty) *Ty {
 	if t.K == "nn" {
 		return t
@@ -55,10 +66,13 @@ func dfltSexp(d *hx.Sexp) hx.Sexp {
 	return hx.N("some", *d)
 }
 
+// Sexp is the type in the generalised model's grammar (input objects by reference).
 func (t *Ty) Sexp() hx.Sexp {
 	switch t.K {
 	case "scalar":
 		return hx.A(t.Name)
+	case "custom":
+		return hx.N("custom", hx.A(t.Name))
 	case "enum":
 		vs := make([]hx.Sexp, len(t.Vals))
 		for i, v := range t.Vals {
@@ -66,17 +80,93 @@ func (t *Ty) Sexp() hx.Sexp {
 		}
 		return hx.N("enum", hx.A(t.Name), hx.L(vs...))
 	case "input":
-		fs := make([]hx.Sexp, len(t.Fields))
-		for i, f := range t.Fields {
-			fs[i] = hx.L(hx.A(f.Name), f.Ty.Sexp(), dfltSexp(f.Dflt))
-		}
-		return hx.N("input", hx.A(t.Name), hx.L(fs...))
+		return hx.N("ref", hx.A(t.Name))
 	case "list":
 		return hx.N("list", t.Elem.Sexp())
 	case "nn":
 		return hx.N("nn", t.Elem.Sexp())
 	}
 	panic("bad type kind " + t.K)
+}
+
+// collectDefs gathers the input-object definitions reachable from t.
+func collectDefs(t *Ty, into map[string]*InputDef) {
+	switch t.K {
+	case "list", "nn":
+		collectDefs(t.Elem, into)
+	case "input":
+		if _, seen := into[t.Name]; seen {
+			return
+		}
+		into[t.Name] = t.Def
+		for _, f := range t.Def.Fields {
+			collectDefs(f.Ty, into)
+		}
+	}
+}
+
+// envSexp renders the definitions as `((Name hooked|plain ((f ty dflt)…))…)`, sorted by name.
+func envSexp(defs map[string]*InputDef) hx.Sexp {
+	names := make([]string, 0, len(defs))
+	for n := range defs {
+		names = append(names, n)
+	}
+	sort.Strings(names)
+	out := []hx.Sexp{}
+	for _, n := range names {
+		d := defs[n]
+		fs := make([]hx.Sexp, len(d.Fields))
+		for i, f := range d.Fields {
+			fs[i] = hx.L(hx.A(f.Name), f.Ty.Sexp(), dfltSexp(f.Dflt))
+		}
+		h := "plain"
+		if d.Hooked {
+			h = "hooked"
+		}
+		out = append(out, hx.L(hx.A(n), hx.A(h), hx.L(fs...)))
+	}
+	return hx.L(out...)
+}
+
+// treeExpressible: the tree model (ApiFu/C05/Model.lean) can express the type — no recursion, no
+// hook, no custom scalar.
+func treeExpressible(t *Ty, onPath map[string]bool) bool {
+	switch t.K {
+	case "custom":
+		return false
+	case "list", "nn":
+		return treeExpressible(t.Elem, onPath)
+	case "input":
+		if onPath[t.Name] || t.Def.Hooked {
+			return false
+		}
+		onPath[t.Name] = true
+		defer delete(onPath, t.Name)
+		for _, f := range t.Def.Fields {
+			if !treeExpressible(f.Ty, onPath) {
+				return false
+			}
+		}
+	}
+	return true
+}
+
+// TreeSexp is the type in the tree model's grammar (input objects inlined); only for
+// treeExpressible types.
+func (t *Ty) TreeSexp() hx.Sexp {
+	switch t.K {
+	case "input":
+		fs := make([]hx.Sexp, len(t.Def.Fields))
+		for i, f := range t.Def.Fields {
+			fs[i] = hx.L(hx.A(f.Name), f.Ty.TreeSexp(), dfltSexp(f.Dflt))
+		}
+		return hx.N("input", hx.A(t.Name), hx.L(fs...))
+	case "list":
+		return hx.N("list", t.Elem.TreeSexp())
+	case "nn":
+		return hx.N("nn", t.Elem.TreeSexp())
+	}
+	return t.Sexp()
 }
 
 // GraphQL spelling of the type (variable definitions).
@@ -101,7 +191,30 @@ func parseDflt(x hx.Sexp) (*hx.Sexp, error) {
 	return nil, fmt.Errorf("bad default %s", x.String())
 }
 
-func parseTy(x hx.Sexp) (*Ty, error) {
+// parseEnv reads `((Name hooked|plain ((f ty dflt)…))…)`; definitions may refer to each other.
+func parseEnv(x hx.Sexp) (map[string]*InputDef, error) {
+	env := map[string]*InputDef{}
+	for _, d := range x.List {
+		env[d.List[0].Atom] = &InputDef{Name: d.List[0].Atom, Hooked: d.List[1].Atom == "hooked"}
+	}
+	for _, d := range x.List {
+		def := env[d.List[0].Atom]
+		for _, f := range d.List[2].List {
+			ft, err := parseTy(f.List[1], env)
+			if err != nil {
+				return nil, err
+			}
+			dv, err := parseDflt(f.List[2])
+			if err != nil {
+				return nil, err
+			}
+			def.Fields = append(def.Fields, &Field{Name: f.List[0].Atom, Ty: ft, Dflt: dv})
+		}
+	}
+	return env, nil
+}
+
+func parseTy(x hx.Sexp, env map[string]*InputDef) (*Ty, error) {
 	if !x.IsList {
 		switch x.Atom {
 		case "Int", "Float", "String", "Boolean", "ID", "DateTime", "LongInt":
@@ -114,37 +227,34 @@ func parseTy(x hx.Sexp) (*Ty, error) {
 	}
 	switch x.List[0].Atom {
 	case "list", "nn":
-		e, err := parseTy(x.List[1])
+		e, err := parseTy(x.List[1], env)
 		if err != nil {
 			return nil, err
 		}
 		return &Ty{K: x.List[0].Atom, Elem: e}, nil
+	case "custom":
+		return customTy(x.List[1].Atom), nil
 	case "enum":
 		t := &Ty{K: "enum", Name: x.List[1].Atom}
 		for _, v := range x.List[2].List {
 			t.Vals = append(t.Vals, v.Atom)
 		}
 		return t, nil
-	case "input":
-		t := &Ty{K: "input", Name: x.List[1].Atom}
-		for _, f := range x.List[2].List {
-			ft, err := parseTy(f.List[1])
-			if err != nil {
-				return nil, err
-			}
-			d, err := parseDflt(f.List[2])
-			if err != nil {
-				return nil, err
-			}
-			t.Fields = append(t.Fields, &Field{Name: f.List[0].Atom, Ty: ft, Dflt: d})
+	case "ref":
+		d := env[x.List[1].Atom]
+		if d == nil {
+			return nil, fmt.Errorf("undefined input type %s", x.List[1].Atom)
 		}
-		return t, nil
+		return inputTy(d), nil
 	}
 	return nil, fmt.Errorf("bad type %s", x.String())
 }
 
 func (t *Ty) field(name string) *Field {
-	for _, f := range t.Fields {
+	if t.Def == nil {
+		return nil
+	}
+	for _, f := range t.Def.Fields {
 		if f.Name == name {
 			return f
 		}
@@ -372,6 +482,19 @@ func jsonExact(v hx.Sexp) bool {
 // enumVal is the Go value the harness schema attaches to an enum value.
 type enumVal struct{ Name string }
 
+// hookOut is what the harness's symbolic InputCoercion hook returns: the type and exactly the
+// field map it was called with.
+type hookOut struct {
+	Type   string
+	Fields map[string]interface{}
+}
+
+// customOut is what the harness's custom scalars coerce to.
+type customOut struct {
+	Scalar string
+	Value  interface{}
+}
+
 func halfOfFloat(f float64) (hx.Sexp, bool) {
 	if math.IsNaN(f) || math.IsInf(f, 0) {
 		return hx.Sexp{}, false
@@ -407,6 +530,10 @@ func dump(v interface{}) hx.Sexp {
 		return hx.N("time", hx.A(v.Format(time.RFC3339Nano)))
 	case enumVal:
 		return hx.N("enum", hx.A(v.Name))
+	case hookOut:
+		return hx.N("obj", kv("$fields", dump(v.Fields)), kv("$hook", hx.N("str", hx.A(v.Type))))
+	case customOut:
+		return hx.N("obj", kv("$scalar", hx.N("str", hx.A(v.Scalar))), kv("$value", dump(v.Value)))
 	case []interface{}:
 		out := make([]hx.Sexp, len(v))
 		for i, e := range v {
@@ -482,6 +609,156 @@ func goOf(x hx.Sexp) interface{} {
 		return out
 	}
 	panic("bad goval " + x.String())
+}
+
+// ---- raw variable values of every Go kind ------------------------------------------------------------
+
+// jsonKindsOnly: the raw value consists of the kinds encoding/json produces.
+func jsonKindsOnly(x hx.Sexp) bool {
+	if !x.IsList {
+		return true
+	}
+	switch tag(x) {
+	case "num", "str", "bool":
+		return true
+	case "list":
+		for _, e := range x.List[1:] {
+			if !jsonKindsOnly(e) {
+				return false
+			}
+		}
+		return true
+	case "obj":
+		for _, e := range x.List[1:] {
+			if !jsonKindsOnly(e.List[1]) {
+				return false
+			}
+		}
+		return true
+	}
+	return false
+}
+
+func halfToFloat(h *big.Int) float64 {
+	f, _ := new(big.Float).SetInt(h).Float64()
+	return f / 2
+}
+
+// goIn builds the Go value a caller of graphql.Execute would put into Request.VariableValues.
+func goIn(x hx.Sexp) interface{} {
+	if !x.IsList {
+		return nil
+	}
+	switch tag(x) {
+	case "num":
+		return halfToFloat(bigOf(x.List[1]))
+	case "str":
+		return x.List[1].Atom
+	case "bool":
+		return x.List[1].Atom == "true"
+	case "list":
+		out := make([]interface{}, 0, len(x.List)-1)
+		for _, e := range x.List[1:] {
+			out = append(out, goIn(e))
+		}
+		return out
+	case "obj":
+		out := map[string]interface{}{}
+		for _, e := range x.List[1:] {
+			out[e.List[0].Atom] = goIn(e.List[1])
+		}
+		return out
+	case "intk":
+		z := bigOf(x.List[2])
+		switch x.List[1].Atom {
+		case "i8":
+			return int8(z.Int64())
+		case "u8":
+			return uint8(z.Uint64())
+		case "i16":
+			return int16(z.Int64())
+		case "u16":
+			return uint16(z.Uint64())
+		case "i32":
+			return int32(z.Int64())
+		case "u32":
+			return uint32(z.Uint64())
+		case "i64":
+			return z.Int64()
+		case "u64":
+			return z.Uint64()
+		case "int":
+			return int(z.Int64())
+		case "uint":
+			return uint(z.Uint64())
+		}
+	case "f32":
+		return float32(halfToFloat(bigOf(x.List[1])))
+	case "nonfinite":
+		switch x.List[1].Atom {
+		case "nan":
+			return math.NaN()
+		case "pinf":
+			return math.Inf(1)
+		case "ninf":
+			return math.Inf(-1)
+		case "nan32":
+			return float32(math.NaN())
+		}
+	case "jsonnumber":
+		return json.Number(x.List[1].Atom)
+	case "bytes":
+		return []byte(x.List[1].Atom)
+	case "other":
+		switch x.List[1].Atom {
+		case "nilptr":
+			return (*int)(nil)
+		case "intslice":
+			return []int{1, 2}
+		case "strslice":
+			return []string{"a"}
+		case "strmap":
+			return map[string]string{"a": "b"}
+		case "struct":
+			return struct{ A int }{1}
+		case "time":
+			return time.Date(2020, 1, 2, 3, 4, 5, 0, time.UTC)
+		case "intptr":
+			n := 5
+			return &n
+		case "complex":
+			return complex(1, 2)
+		}
+	}
+	panic("bad raw value " + x.String())
+}
+
+var otherTags = []string{"nilptr", "intslice", "strslice", "strmap", "struct", "time", "intptr", "complex"}
+
+// rawText is a readable rendering of a raw value with Go kinds (replay files, messages).
+func rawText(x hx.Sexp) string {
+	if jsonKindsOnly(x) {
+		return jsonText(x)
+	}
+	switch tag(x) {
+	case "list":
+		parts := []string{}
+		for _, e := range x.List[1:] {
+			parts = append(parts, rawText(e))
+		}
+		return "[" + strings.Join(parts, ",") + "]"
+	case "obj":
+		parts := []string{}
+		for _, e := range x.List[1:] {
+			parts = append(parts, strconv.Quote(e.List[0].Atom)+":"+rawText(e.List[1]))
+		}
+		return "{" + strings.Join(parts, ",") + "}"
+	case "intk":
+		return x.List[1].Atom + "(" + x.List[2].Atom + ")"
+	case "f32":
+		return "float32(" + jsonNumText(bigOf(x.List[1])) + ")"
+	}
+	return x.String()
 }
 
 // parseDateTime is Go's own RFC 3339 parser (what DateTimeType uses): the parameter P of the model.
